@@ -563,10 +563,10 @@ func init() {
 		c.Rule = "DFS (sleep-set reduced, preemption bounded) of concurrent SendNotification/Broadcast/Filtered/ListRoots with client posts from two sessions (one adversarial: it forges an answer with a guessed request id); explicit-state BFS of send/broadcast/filtered accounting over open/close/delete histories against a reference model; enumeration of the ways a server-issued request ends"
 		c.Assume = append(c.Assume, "sessions are held by reference peers that read raw SSE frames", "virtual time for the 30 s request time-out", "memnet replaces net/http")
 		for _, mode := range []string{"ss", "ls"} {
-			c.DFS(fmt.Sprintf("c05/notify/%s/pad0", mode), explore.Bounds{Preempt: c.Pick(2, 4), Dev: 1, POR: true, MaxExec: c.Pick(6000, 300000)})
+			c.DFSBoth(fmt.Sprintf("c05/notify/%s/pad0", mode), explore.Bounds{Preempt: c.Pick(2, 4), Dev: 1, MaxExec: c.Pick(6000, 300000)}, 1)
 			c.DFS(fmt.Sprintf("c05/notify/%s/pad65537", mode), explore.Bounds{Preempt: c.Pick(1, 2), Dev: 1, POR: true, MaxExec: c.Pick(3000, 100000)})
 			for _, v := range []string{"foreign-answer", "two-sessions"} {
-				c.DFS(fmt.Sprintf("c05/roots/%s/%s", mode, v), explore.Bounds{Preempt: c.Pick(2, 3), Dev: 1, POR: true, MaxExec: c.Pick(6000, 300000)})
+				c.DFSBoth(fmt.Sprintf("c05/roots/%s/%s", mode, v), explore.Bounds{Preempt: c.Pick(2, 3), Dev: 1, MaxExec: c.Pick(6000, 300000)}, 1)
 			}
 		}
 		c.Enumerate("c05/endings")
